@@ -52,6 +52,7 @@ func main() {
 		verif    = flag.String("verif", "/verif", "verification directory (known_findings.json, evidence/, out/)")
 		replay   = flag.String("replay", "", "replay file: re-evaluate exactly that obligation")
 		list     = flag.Bool("list", false, "list rules")
+		genRoles = flag.String("gen-roles", "", "file with role names, one per line: print roles_table.go for the tree given by -repo")
 		dump     = flag.Bool("dump", false, "print every obligation")
 		noEvid   = flag.Bool("no-evidence", false, "do not write evidence/violation files (self-test runs)")
 		onlyRule = flag.String("rule", "", "run only this rule id (debugging / self-test)")
@@ -61,6 +62,16 @@ func main() {
 		for _, r := range registry {
 			fmt.Printf("%-10s %-20s min=%d %s\n", r.ID, strings.Join(r.Props, ","), r.Min, r.Doc)
 		}
+		return
+	}
+	if *genRoles != "" {
+		b, err := os.ReadFile(*genRoles)
+		if err != nil {
+			fmt.Println(err)
+			os.Exit(2)
+		}
+		p := loadProg(*repo)
+		fmt.Print(p.genRoles(strings.Fields(string(b))))
 		return
 	}
 	start := time.Now()
@@ -111,6 +122,9 @@ func main() {
 			}
 		}()
 		p := loadProg(*repo)
+		for _, r := range p.Renamed {
+			fmt.Println("NOTE: role", r)
+		}
 		known := loadKnown(filepath.Join(*verif, "known_findings.json"))
 		cache := map[string]*RuleResult{}
 		for _, pr := range props {
@@ -284,22 +298,22 @@ func report(p *Prog, prop, tier string, seed int, results []*RuleResult, known [
 	if !noEvid {
 		ev := evidence{PropertyID: prop, Tier: tier, Seed: seed, Level: "other", WallS: wall.Seconds(), Violations: violations,
 			Coverage: map[string]any{
-				"explanation": "Static analysis of /repo's working tree (go/packages type-checked syntax, go/ssa, dominators/CFG, VTA call graph); no code of the repository is executed. Decides structural necessary conditions of the property, not its value-level clauses. Rules applied — " + strings.Join(expl, " | "),
-				"obligations":        len(all),
-				"discharged":         discharged,
-				"known_findings":     knownN,
-				"violations":         violations,
-				"evaluations":        len(all),
+				"explanation":         "Static analysis of /repo's working tree (go/packages type-checked syntax, go/ssa, dominators/CFG, VTA call graph); no code of the repository is executed. Decides structural necessary conditions of the property, not its value-level clauses. Rules applied — " + strings.Join(expl, " | "),
+				"obligations":         len(all),
+				"discharged":          discharged,
+				"known_findings":      knownN,
+				"violations":          violations,
+				"evaluations":         len(all),
 				"distinct_nontrivial": len(all),
-				"rule":               "one obligation per (rule, construct) pair found in the resolved program: call site, guard, loop, table row or path; all are distinct constructs (keys are unique per rule) and none is trivial: each is a place where the rule could fail",
-				"rules":              ruleSumm,
-				"functions_analysed": len(p.Funcs),
-				"packages":           len(p.Pkgs),
-				"callgraph_nodes":    len(p.CG.Nodes),
-				"samples":            samples,
-				"checker_cmd":        fmt.Sprintf("bin/vuegocheck -property %s -tier %s -repo %s", prop, tier, p.Repo),
-				"trusted_base":       []string{"go/types and go/ssa (x/tools v0.50.0) build a faithful IR of the source", "VTA call graph is sound for the reflection-free part of the module (reflect.Value.Call and user-supplied FuncMap/NodeProcessor/fs.FS implementations are opaque)", "summaries of standard-library functions used by the rules (html.EscapeString escapes & < > \" '; sort.* sorts; sync.* locks)", "the hand-confirmed role tables and minimum instance counts in the checker"},
-				"exhaustive":         true,
+				"rule":                "one obligation per (rule, construct) pair found in the resolved program: call site, guard, loop, table row or path; all are distinct constructs (keys are unique per rule) and none is trivial: each is a place where the rule could fail",
+				"rules":               ruleSumm,
+				"functions_analysed":  len(p.Funcs),
+				"packages":            len(p.Pkgs),
+				"callgraph_nodes":     len(p.CG.Nodes),
+				"samples":             samples,
+				"checker_cmd":         fmt.Sprintf("bin/vuegocheck -property %s -tier %s -repo %s", prop, tier, p.Repo),
+				"trusted_base":        []string{"go/types and go/ssa (x/tools v0.50.0) build a faithful IR of the source", "VTA call graph is sound for the reflection-free part of the module (reflect.Value.Call and user-supplied FuncMap/NodeProcessor/fs.FS implementations are opaque)", "summaries of standard-library functions used by the rules (html.EscapeString escapes & < > \" '; sort.* sorts; sync.* locks)", "the hand-confirmed role tables and minimum instance counts in the checker"},
+				"exhaustive":          true,
 			},
 			Assumptions: []string{"dependencies (expr-lang, goldmark, yaml, x/net/html) are trusted and not analysed", "value-level clauses of the property (listed as 'not decided' in DESIGN.md) are outside this check"},
 		}
